@@ -74,9 +74,55 @@ pub fn check_case(model: &mut Model, case: &Case, tag: &str, rep: Option<&mut Re
         std::fs::create_dir_all(p.parent().unwrap()).unwrap();
         std::fs::write(&p, format!("# note {}\n", i)).unwrap();
     }
+    // "linker" notes (root and deepest directory) with one block reference per file, written with the oracle's own
+    // relative-url function: the note reached by a link must be the note loaded from that file.  Only for names
+    // that need no escaping inside a Markdown link destination.
+    let plain = |f: &String| f.chars().all(|c| c.is_ascii_alphanumeric() || "/._-~".contains(c));
+    let mut linkers: Vec<(String, String)> = vec![];
+    if case.files.iter().all(plain) && !case.base_name.contains(' ') {
+        let deepest = case.files.iter().max_by_key(|f| f.matches('/').count()).map(|f| f.rsplit_once('/').map(|x| x.0.to_string()).unwrap_or_default()).unwrap_or_default();
+        for dir in [String::new(), deepest] {
+            let name = if dir.is_empty() { "zz-linker".to_string() } else { format!("{}/zz-linker", dir) };
+            if linkers.iter().any(|(n, _)| *n == name) {
+                continue;
+            }
+            let mut t = String::from("# linker\n");
+            for f in &case.files {
+                t.push_str(&format!("\n[l]({})\n", crate::oracle::md::rel_url(f.trim_end_matches(".md"), &dir)));
+            }
+            std::fs::write(base.join(format!("{}.md", name)), &t).unwrap();
+            linkers.push((name, dir));
+        }
+    }
     let result = (|| -> Option<String> {
         let mut server = server_for(&base)?;
         let mut rep = rep;
+        // 0. links: go-to-definition on the k-th reference of a linker opens file k; its backlinks include the linker
+        for (name, _) in &linkers {
+            let luri = Url::from_file_path(base.join(format!("{}.md", name))).ok()?;
+            for (k, f) in case.files.iter().enumerate() {
+                let want = Url::from_file_path(base.join(f)).ok()?;
+                let pos = TextDocumentPositionParams { text_document: TextDocumentIdentifier { uri: luri.clone() }, position: Position::new(2 + 2 * k as u32, 1) };
+                let def = dump::catch(|| server.handle_goto_definition(GotoDefinitionParams { text_document_position_params: pos.clone(), work_done_progress_params: Default::default(), partial_result_params: Default::default() }));
+                match def {
+                    Ok(GotoDefinitionResponse::Scalar(l)) if l.uri == want => {}
+                    Ok(other) => return Some(format!("link {} of note {:?} (to file {:?}): go-to-definition answers {:?}, the file's URI is {}", k, name, f, other, want)),
+                    Err(e) => return Some(format!("link {} of note {:?}: go-to-definition panics: {}", k, name, e.chars().take(80).collect::<String>())),
+                }
+                let refs = dump::catch(|| {
+                    server.handle_references(ReferenceParams {
+                        text_document_position: TextDocumentPositionParams { text_document: TextDocumentIdentifier { uri: want.clone() }, position: Position::new(0, 0) },
+                        work_done_progress_params: Default::default(),
+                        partial_result_params: Default::default(),
+                        context: ReferenceContext { include_declaration: false },
+                    })
+                })
+                .ok()?;
+                if !refs.iter().any(|l| l.uri == luri) {
+                    return Some(format!("file {:?}: its backlinks {:?} do not include the note {:?} that links to it", f, refs.iter().map(|l| l.uri.as_str().to_string()).collect::<Vec<_>>(), name));
+                }
+            }
+        }
         for (i, f) in case.files.iter().enumerate() {
             let path = base.join(f);
             let uri = Url::from_file_path(&path).ok()?;
@@ -141,7 +187,7 @@ pub fn check_case(model: &mut Model, case: &Case, tag: &str, rep: Option<&mut Re
 }
 
 pub fn run(ctx: &Ctx, model: &mut Model, rep: &mut Report) {
-    rep.rule = "libraries written to a temporary directory (nested directories, dotted / dashed / tilde names; in the attribution stream also spaces, non-ASCII, `%`, `#`, `?`, stems ending in `.md`, a base path with a space), loaded with new_for_path and served in-process; correspondence (safe names): model key↔URL vs Url::from_file_path and the key on disk; oracle: for every file, formatting through `Url::from_file_path(file)` returns that file's note, didChange through it updates that note (note count unchanged, new text served), symbol URIs open the file they name; non-trivial = nested or dotted name; distinct by file set".to_string();
+    rep.rule = "libraries written to a temporary directory (nested directories, dotted / dashed / tilde names; in the attribution stream also spaces, non-ASCII, `%`, `#`, `?`, stems ending in `.md`, a base path with a space), loaded with new_for_path and served in-process; correspondence (safe names): model key↔URL vs Url::from_file_path and the key on disk; oracle: two linker notes (root and deepest directory) reach every file by go-to-definition and appear in its backlinks; for every file, formatting through `Url::from_file_path(file)` returns that file's note, didChange through it updates that note (note count unchanged, new text served), symbol URIs open the file they name; non-trivial = nested or dotted name; distinct by file set".to_string();
     let case_of = |v: &serde_json::Value| Case { base_name: v["base"].as_str().unwrap_or("lib").to_string(), files: v["files"].as_array().map(|a| a.iter().filter_map(|x| x.as_str().map(|s| s.to_string())).collect()).unwrap_or_default() };
     if let Some(path) = &ctx.replay {
         let v: serde_json::Value = serde_json::from_str(&std::fs::read_to_string(path).unwrap()).unwrap();
